@@ -59,7 +59,7 @@ def hostile_varbinds(rng, base="1.3.6.1.2.1"):
 def directed_item(rng, delay, op):
     """Well-formed envelope, hostile content aimed at one deep decoder."""
     base = op.get("oid", "1.3.6.1.2.1")
-    sc = rng.choice(["getnext-exc", "rel-oid", "rel-oid", "real", "empty-vb", "short-name", "counts"])
+    sc = rng.choice(["getnext-exc", "rel-oid", "rel-oid", "real", "empty-vb", "short-name", "counts", "big", "big"])
     inside = base + "." + ".".join(str(rng.randrange(1, 200)) for _ in range(rng.randint(1, 2)))
     if sc == "getnext-exc":
         v = rng.choice([["nosuchobject"], ["nosuchinstance"], ["endofmibview"], ["null"], hostile_value(rng)])
@@ -74,6 +74,20 @@ def directed_item(rng, delay, op):
             vbs.append([inside, gen.value(rng, gen.SAFE_KINDS), {"name_tag": 0x0D, "name_hex": bytes(rng.choice([0, 1, 2, 3, 39, 40, 0x80, 0xFF, 0x7F]) for _ in range(rng.choice([0, 1, 1, 2, 3, 6]))).hex()}])
     elif sc == "real":
         vbs = [[inside, ["real", rng.choice([gen.real_content(rng), bytes([rng.choice([0x80, 0x81, 0x82, 0x83, 0xC3, 0xBF, 0x8C, 0x01, 0x02, 0x03, 0x00, 0x44, 0x40, 0x7F])]).hex() + garbage(rng, rng.randint(0, 9)).hex()])]]]
+    elif sc == "big":
+        # a well-formed reply of 2040..4080 octets (around the msgMaxSize the client announces, up to
+        # its receive buffer), correctly signed or with a bogus MAC
+        total = rng.choice([2030, 2047, 2048, 2049, 2060, 2500, 3000, 3900, 4000])
+        vbs = []
+        left = total
+        while left > 0:
+            n = min(left, rng.choice([100, 255, 300, 900]))
+            vbs.append([inside + ".%d" % len(vbs), ["octets", (bytes([rng.randrange(256)]) * n).hex()]])
+            left -= n + 20
+        it = {"k": "custom", "delay_ns": delay, "varbinds": vbs, "pdu": "response"}
+        if rng.random() < 0.5:
+            it["rewrite"] = {"mac": rng.choice(["zero", "valid", {"mac": "random", "mac_hex": "11" * 12}])}
+        return it
     elif sc == "empty-vb":
         vbs = [[inside, ["null"], {"empty": True}]] if rng.random() < 0.5 else [[inside, ["int", 1]], [inside, ["null"], {"empty": True}]]
     elif sc == "short-name":
@@ -230,6 +244,8 @@ class C01(Prop):
                     items.append({"k": "genuine", "delay_ns": lat + 10_001})
                 scripts[key] = {"replies": items}
         plan = {"flavour": flavour, "agent": agent, "sessions": [sess], "ops": ops, "scripts": scripts, "send_errors": send_errors, "latency_ns": lat, "poison": rng.choice([0xA5, 0x00, 0xFF, 0x30]), "differential": rng.random() < 0.5}
+        if not plan["differential"] and rng.random() < 0.4:
+            plan["rx_tail"] = "keep"
         return plan
 
     def execute(self, plan):
